@@ -91,7 +91,16 @@ def confirm(outdir):
     return res
 
 
+SNAP = "/tmp/vsnap"
+
+
 def run(ids):
+    # the checks run from a snapshot of /verif's HEAD, so that editing /verif meanwhile cannot disturb them
+    sh("git -C %s worktree remove --force %s; git -C %s worktree prune" % (ROOT, SNAP, ROOT))
+    rc, out = sh(["git", "-C", ROOT, "worktree", "add", "-q", "--detach", SNAP, "HEAD"])
+    if rc != 0:
+        print("cannot make a snapshot:", out)
+        return
     for d in sorted(glob.glob(os.path.join(SEEDED, "*"))):
         mid = os.path.basename(d)
         if ids and mid not in ids:
@@ -107,7 +116,7 @@ def run(ids):
             if rc != 0:
                 print(mid, "patch does not apply", out[-200:])
                 continue
-            rc, out = sh(["python3", os.path.join(ROOT, "check.py"), "matrix", "--tier", "quick"], cwd=ROOT, timeout=3600)
+            rc, out = sh(["python3", os.path.join(SNAP, "check.py"), "matrix", "--tier", "quick"], cwd=SNAP, timeout=3600)
         finally:
             sh("git -C /repo checkout -q -- . && git -C /repo clean -fdq -e target")
         m = [l for l in out.splitlines() if l.startswith("MATRIX ")]
